@@ -277,10 +277,7 @@ def _run_finish(rep, out, lines, meta):
                         ulp += 1
         else:
             head, _, rest = m.partition(" ")
-            margins = [sep_margin(c, j) for j in range(len(c["obs"]))]
-            gap = T.min_rel_gap(c)
-            tie = any(x is not None and Fr(1, 10**14) < x < Fr(3, 10**10) for x in margins + [gap])
-            if tie:
+            if T.threshold_tie(c):
                 qties += 1
                 continue
             qjudged += 1
